@@ -76,7 +76,7 @@ func (e *Engine) contiguityGuard(at ssa.Instruction, claim ssa.Value, hx string)
 }
 
 func runC01(e *Engine, r *Report, tier string) {
-	r.Explanation = "C01, structural clauses only. Decided (D): R1 the last observed event nonce (family 0x24) is written outside genesis only with claim.GetEventNonce() of a claim for which the guard `!att.Observed && claim.nonce == get(0x24)+1` dominates; R2 that write and the persisted Observed=true dominate the event-handler dispatch, and the dispatch is reachable from entry points only through the tally function; R3 the vote recorder is guarded by `claim.nonce == get(0x23,oracle)+1` (mismatch -> error) and writes 0x23 := claim.nonce on every success path; R4 0x23 is written only by the vote recorder/genesis and, since it can be deleted, the vote append is guarded by a not-yet-voted test; R5 a parked claim (0x54) is deleted before any handler effect, keyed by the looked-up nonce, written only by the dispatcher under the claim's own nonce; R6 every ExternalClaim implementer is dispatched. Not decided (—): quorum arithmetic (C02), effects of each event (C04), behaviour under concrete interleavings (the rules are path-universal instead)."
+	r.Explanation = "C01, structural clauses only. Decided (D): R1 the last observed event nonce (family 0x24) is written outside genesis only with claim.GetEventNonce() of a claim for which the guard `!att.Observed && claim.nonce == get(0x24)+1` dominates; R2 that write and the persisted Observed=true dominate the event-handler dispatch, and the dispatch is reachable from entry points only through the tally function; R3 the vote recorder is guarded by `claim.nonce == get(0x23,oracle)+1` (mismatch -> error) and writes 0x23 := claim.nonce on every success path; R4 0x23 is written only by the vote recorder/genesis and, since it can be deleted, the vote append is guarded by a not-yet-voted test; R5 a parked claim (0x54) is deleted before any handler effect, keyed by the looked-up nonce, written only by the dispatcher under the claim's own nonce; R6 every ExternalClaim implementer is dispatched; R7 the per-oracle nonce (0x23) is deleted only under a dominating test that it is not ahead of the last observed nonce (0x24), so an oracle that re-bonds cannot vote again for a pending nonce. Not decided (—): quorum arithmetic (C02), effects of each event (C04), behaviour under concrete interleavings (the rules are path-universal instead)."
 	r.Trusted = []string{"go/ssa dominance", "key-family resolution by prefix byte", "ExternalClaim accessors (GetEventNonce) are pure getters"}
 	r.Assumptions = []string{"transactions are atomic (a failing Msg handler's writes are discarded by the SDK)"}
 
@@ -84,6 +84,7 @@ func runC01(e *Engine, r *Report, tier string) {
 	r.Rule("R2", "0x24 write and Observed=true persisted dominate handler dispatch; dispatch reachable only via the tally", 2, "dispatch call + who-may-call")
 	r.Rule("R3", "vote recorder: per-oracle contiguity guard dominates vote append; 0x23 written on every success path", 2, "callers of writers of crosschain:23")
 	r.Rule("R4", "writers/deleters of 0x23 closed; vote append guarded by not-yet-voted when 0x23 can be deleted", 2, "writers of crosschain:23")
+	r.Rule("R7", "0x23 deleted only when it is not ahead of the last observed nonce (no pending vote is forgotten)", 1, "deleters of crosschain:23")
 	r.Rule("R5", "pending claim 0x54 deleted before handler effects; written only by the dispatcher keyed by the claim's nonce", 3, "writers/deleters of crosschain:54")
 	r.Rule("R6", "every ExternalClaim implementer is dispatched by the attestation handler; parked kinds by the executor", 6, "implementers of types.ExternalClaim")
 
@@ -369,6 +370,56 @@ func runC01(e *Engine, r *Report, tier string) {
 	}
 	// direct raw writers elsewhere (set on 0x23 not via the writer functions) are already in FuncsWithOp
 
+	// ---------- R7: the per-oracle nonce is forgotten only when it is not ahead of the last observed nonce ----------
+	// Deleting 0x23 makes the oracle start over from the last observed event nonce. If its stored nonce is ahead of that, it
+	// has votes in attestations that are still pending and could vote for those nonces again, for a competing claim
+	// (K-C01-2). Every tx-reachable deletion must therefore be guarded by `get(0x23, oracle) <= get(0x24)`.
+	for _, cs := range del23 {
+		ck := e.CanonFnKey(cs.Caller) + " delete(0x23)"
+		okGuard := false
+		for _, g := range GuardsOf(cs.Call) {
+			ci, ok := NormCond(g)
+			if !ok || ci.X == nil || ci.Y == nil {
+				continue
+			}
+			var lo, hi ssa.Value
+			switch ci.Op {
+			case "<=", "<", "==":
+				lo, hi = ci.X, ci.Y
+			case ">=", ">":
+				lo, hi = ci.Y, ci.X
+			default:
+				continue
+			}
+			rc, ok1 := e.valueReadsFamily(lo, cc, "23")
+			_, ok2 := e.valueReadsFamily(hi, cc, "24")
+			_, hi23 := e.valueReadsFamily(hi, cc, "23")
+			if !ok1 || !ok2 || hi23 {
+				continue
+			}
+			// the nonce that is compared is the one of the oracle whose nonce is deleted
+			same := false
+			for _, a := range rc.Call.Args {
+				for _, b := range cs.Call.Common().Args {
+					if isAddrLike(a.Type()) && isAddrLike(b.Type()) && SameExpr(a, b, 6) {
+						same = true
+					}
+				}
+			}
+			if same {
+				okGuard = true
+			}
+		}
+		if okGuard {
+			r.Ok("R7", ck, e.InstrPos(cs.Call), "guarded by get(0x23, oracle) <= get(0x24): no pending vote of the oracle exists")
+		} else {
+			r.Fail("R7", ck, e.InstrPos(cs.Call), "the oracle's last event nonce is deleted without a dominating test that it is not ahead of the last observed event nonce: an oracle with votes in pending attestations starts over from the last observed nonce and can vote for a pending nonce a second time, for a competing claim")
+		}
+	}
+	if len(del23) == 0 {
+		r.Ok("R7", "no deleter", "", "0x23 is never deleted in transaction-reachable code")
+	}
+
 	// ---------- R5 ----------
 	_, del54 := e.writerCallSites(cc, "54", "delete")
 	if len(del54) == 0 {
@@ -629,4 +680,18 @@ func eventNonceOf(v ssa.Value) (ssa.Value, bool) {
 		}
 	}
 	return nil, false
+}
+
+// isAddrLike: an account address value (sdk.AccAddress / []byte / common.Address).
+func isAddrLike(t types.Type) bool {
+	ts := t.String()
+	if strings.HasSuffix(ts, "AccAddress") || strings.HasSuffix(ts, "common.Address") {
+		return true
+	}
+	if sl, ok := t.Underlying().(*types.Slice); ok {
+		if b, ok := sl.Elem().Underlying().(*types.Basic); ok && b.Kind() == types.Byte {
+			return true
+		}
+	}
+	return false
 }
